@@ -79,6 +79,9 @@ func c14Gen(r *Rand, tier string) interface{} {
 		if r.Chance(1, 12) {
 			t.Wait = append(t.Wait, "ghost")
 		}
+		if r.Chance(1, 15) {
+			t.Wait = append(t.Wait, t.Name) // itself: not a task that already exists either
+		}
 		if failing && r.Chance(1, 3) {
 			t.FailAt = r.Intn(t.Steps + 1)
 		}
@@ -250,7 +253,7 @@ func c14Run(inI interface{}, env *Env) *Failure {
 	// acceptance: a task may only wait for tasks that already exist
 	for _, t := range in.Tasks {
 		for _, w := range t.Wait {
-			if w == "ghost" && accepted[t.Name] {
+			if (w == "ghost" || w == t.Name) && accepted[t.Name] {
 				return failf("C14/accepted-unknown-wait", "", "task %s waits for %q which does not exist, yet the submission was accepted", t.Name, w)
 			}
 		}
